@@ -12,7 +12,10 @@
            the cache OFF (mcmc_sampler(cache=False) from the same start) gives the identical trajectory and likelihoods.
            Reads carry large counts so that |llk| reaches 1e3-1e6 and a loss of precision in cached values is visible.
 
-usage: probe_compiled.py cache <seed> <n_cases> [small]  |  probe_compiled.py kernels <file.json>  |  probe_compiled.py callcache <seed> <n_cases>
+  pedcache   the compiled call-pedigree sampler (cache created inside mcmc_sampler, no switch, no likelihoods returned) against a
+           cache-free twin re-compiled from the same source: same seed and start => identical trace.
+
+usage: probe_compiled.py pedcache <seed> <n_cases>  |  probe_compiled.py cache <seed> <n_cases> [small]  |  probe_compiled.py kernels <file.json>  |  probe_compiled.py callcache <seed> <n_cases>
 Prints one JSON document.
 """
 import json
@@ -125,6 +128,143 @@ def probe_callcache(seed, n_cases):
     return out
 
 
+def cache_free_twin(module, cached_name):
+    """Re-compiles every @njit function DEFINED in `module` from its Python source (py_func) in a copy of the module's
+    namespace in which `cached_name` is bound to a wrapper that ignores the cache argument and always recomputes
+    (the repo's own function with cache=None).  Everything else - control flow, draws, priors - is the identical code."""
+    import types
+    import numba
+    orig = getattr(module, cached_name)
+
+    @numba.njit
+    def recompute(reads, read_counts, haplotypes, sample, genotype_alleles, cache=None):
+        return orig(reads, read_counts, haplotypes, sample, genotype_alleles, None)
+
+    ns = dict(vars(module))
+    ns[cached_name] = recompute
+    for name, obj in list(vars(module).items()):
+        py = getattr(obj, "py_func", None)
+        if py is None or getattr(py, "__module__", None) != module.__name__:
+            continue
+        f = types.FunctionType(py.__code__, ns, py.__name__, py.__defaults__, py.__closure__)
+        f.__kwdefaults__ = py.__kwdefaults__
+        ns[name] = numba.njit(f)
+    return ns
+
+
+PED_TOPOLOGIES = {
+    "trio": [(-1, -1), (-1, -1), (0, 1)],
+    "sibs": [(-1, -1), (-1, -1), (0, 1), (0, 1)],
+    "halfsibs": [(-1, -1), (-1, -1), (-1, -1), (0, 1), (0, 2)],
+    "selfing": [(-1, -1), (0, 0), (1, 1)],
+    "backcross": [(-1, -1), (-1, -1), (0, 1), (0, 2)],
+    "duo": [(-1, -1), (0, -1), (-1, 1)],
+}
+
+
+def probe_pedcache(seed, n_cases):
+    """The COMPILED call-pedigree sampler creates its likelihood cache inside mcmc_sampler, has no switch for it and returns no
+    likelihoods.  Oracle: the same fit (same seed, same start) through a cache-free twin of the compiled sampler must give the
+    identical trace.  Reads carry counts up to 9e5 so that |llk| reaches 1e6 and a cached value that is not exactly the
+    computed one (precision, key collision, wrong sample) changes the conditionals by whole log units."""
+    import numpy as np
+    from mchap.pedigree import classes as pclasses
+    from mchap.pedigree import mcmc as pmcmc
+    from mchap.pedigree.classes import PedigreeCallingMCMC
+    twin = cache_free_twin(pmcmc, "log_likelihood_alleles_cached")["mcmc_sampler"]
+    real = pclasses.mcmc_sampler
+    rng = random.Random(seed)
+    out = {"cases": 0, "ballast_cases": 0, "steps_compared": 0, "sample_steps_compared": 0, "distinct_states": 0, "mismatches": []}
+    for c in range(n_cases):
+        topo = rng.choice(sorted(PED_TOPOLOGIES))
+        parents = PED_TOPOLOGIES[topo]
+        ns = len(parents)
+        base = rng.choice([2, 4, 4])
+        ploidy, tau = [], []
+        mixed = base == 4 and rng.random() < 0.3
+        for i, (p_, q_) in enumerate(parents):
+            if p_ < 0 and q_ < 0:
+                pl = base if not (mixed and i == 1) else 2
+                ploidy.append(pl)
+                tau.append([pl // 2, pl // 2])
+            else:
+                t = [ploidy[x] // 2 if x >= 0 else base // 2 for x in (p_, q_)]
+                tau.append(t)
+                ploidy.append(sum(t))
+        n_pos = rng.choice([1, 2, 3])
+        n_haps = min(2 ** n_pos, rng.choice([2, 3, 4, 6, 8]))
+        haps = set()
+        while len(haps) < n_haps:
+            haps.add(tuple(rng.randrange(2) for _ in range(n_pos)))
+        haplotypes = np.array(sorted(haps), dtype=np.int8)
+        maxp = max(ploidy)
+        mr = rng.choice([2, 4, 7])
+        reads = np.full((ns, mr, n_pos, 2), np.nan)
+        counts = np.zeros((ns, mr), dtype=np.int64)
+        scale = rng.choice([1, 1, 10, 1000, 100000])
+        # "ballast": a read that says nothing (0.5 / 0.5 everywhere) with a huge count adds the same large constant to the
+        # likelihood of every genotype of that sample: |llk| ~ 1e5-1e6 while the DIFFERENCES between genotypes stay of order 1,
+        # so a cached value that lost precision (float32: ulp 0.06-0.12 there) moves the conditionals by several percent
+        ballast = rng.random() < 0.6
+        for i in range(ns):
+            n_i = rng.randint(0, mr)
+            for r in range(n_i):
+                if ballast and r == n_i - 1 and rng.random() < 0.8:
+                    counts[i, r] = rng.randint(2, 9) * 100000
+                    reads[i, r, :, :] = 0.5
+                    continue
+                counts[i, r] = rng.randint(1, 9) * (1 if ballast else scale)
+                h = haplotypes[rng.randrange(n_haps)]
+                for j in range(n_pos):
+                    if rng.random() < 0.15:
+                        continue
+                    a = int(h[j]) if rng.random() < 0.85 else rng.randrange(2)
+                    pr = rng.choice([0.7, 0.9, 0.99])
+                    reads[i, r, j, :] = 1 - pr
+                    reads[i, r, j, a] = pr
+            if rng.random() < 0.4:
+                order = list(range(mr))
+                rng.shuffle(order)
+                reads[i] = reads[i][order]
+                counts[i] = counts[i][order]
+        err = rng.choice([0.01, 0.1, 0.3])
+        freqs = None
+        if rng.random() < 0.5:
+            w = np.array([rng.choice([1, 2, 5, 20]) for _ in range(n_haps)], dtype=float)
+            freqs = w / w.sum()
+        steps = rng.choice([40, 120])
+        sd = rng.randrange(1, 2 ** 31 - 1)
+        step_type = rng.choice(["Gibbs", "Gibbs", "Metropolis-Hastings"])
+        info = {"case": c, "topology": topo, "ploidy": ploidy, "n_haplotypes": int(n_haps), "count_scale": scale, "ballast": ballast, "step_type": step_type, "seed": sd, "error": err}
+        kw = dict(sample_ploidy=np.array(ploidy, dtype=np.int64), sample_inbreeding=np.zeros(ns), sample_parents=np.array(parents, dtype=np.int64),
+                  gamete_tau=np.array(tau, dtype=np.int64), gamete_lambda=np.zeros((ns, 2)), gamete_error=np.full((ns, 2), err), haplotypes=haplotypes,
+                  frequencies=freqs, steps=steps, annealing=rng.choice([0, 10]), chains=rng.choice([1, 2]), random_seed=sd, step_type=step_type,
+                  swap_parental_alleles=rng.random() < 0.8)
+        initial = None
+        if rng.random() < 0.5:
+            initial = np.full((ns, maxp), -1, dtype=np.int16)
+            for i in range(ns):
+                initial[i, : ploidy[i]] = sorted(rng.randrange(n_haps) for _ in range(ploidy[i]))
+        try:
+            pclasses.mcmc_sampler = real
+            ta = np.array(PedigreeCallingMCMC(**kw).fit(reads, counts, initial=None if initial is None else initial.copy()).genotypes)
+            pclasses.mcmc_sampler = twin
+            tb = np.array(PedigreeCallingMCMC(**kw).fit(reads, counts, initial=None if initial is None else initial.copy()).genotypes)
+        finally:
+            pclasses.mcmc_sampler = real
+        out["cases"] += 1
+        out["ballast_cases"] += int(ballast)
+        out["steps_compared"] += int(ta.shape[0] * ta.shape[1])
+        out["sample_steps_compared"] += int(ta.shape[0] * ta.shape[1] * ta.shape[2])
+        out["distinct_states"] += len({ta[ch, i].tobytes() for ch in range(ta.shape[0]) for i in range(ta.shape[1])})
+        if ta.shape != tb.shape or not np.array_equal(ta, tb):
+            first = -1
+            if ta.shape == tb.shape:
+                first = int(np.argmax(np.any(ta != tb, axis=(0, 2, 3))))
+            out["mismatches"].append(dict(info, kind="pedigree_trajectory_depends_on_cache", first_differing_step=first))
+    return out
+
+
 def probe_cache(seed, n_cases, small=False):
     import numpy as np
     from mchap.assemble.mcmc import DenovoMCMC
@@ -216,5 +356,7 @@ if __name__ == "__main__":
         print(json.dumps(probe_cache(int(sys.argv[2]), int(sys.argv[3]), small=len(sys.argv) > 4)))
     elif sys.argv[1] == "callcache":
         print(json.dumps(probe_callcache(int(sys.argv[2]), int(sys.argv[3]))))
+    elif sys.argv[1] == "pedcache":
+        print(json.dumps(probe_pedcache(int(sys.argv[2]), int(sys.argv[3]))))
     else:
         print(json.dumps(probe_kernels(sys.argv[2])))
